@@ -171,7 +171,9 @@ func (e *Engine) libModel(st *State, fn *ssa.Function, full string, args []Value
 			e.fail(st, c.Slt(nv, c.BV(0, 32)), "nopanic:negative-waitgroup", site)
 			e.Store(st, sp, IntV{nv}, sT, site)
 		case "Wait":
-			e.blockUntil(st, c.Eq(cur, c.BV(0, 32)), "waitgroup", site)
+			for e.blockUntil(st, c.Eq(cur, c.BV(0, 32)), "waitgroup", site) {
+				cur = e.Load(st, sp, sT, site).(IntV).T
+			}
 		}
 		return nil, true
 	case "runtime.Gosched", "runtime.KeepAlive", "runtime.SetFinalizer":
@@ -323,12 +325,17 @@ func (e *Engine) mutexOp(st *State, p PtrV, fn *ssa.Function, op string, site st
 	zero := c.BV(0, 32)
 	switch op {
 	case "lock":
-		free := c.Eq(w, zero)
-		if isRW {
-			r := e.Load(st, rp, rT, site).(IntV).T
-			free = c.And(free, c.Eq(r, zero))
+		for {
+			free := c.Eq(w, zero)
+			if isRW {
+				r := e.Load(st, rp, rT, site).(IntV).T
+				free = c.And(free, c.Eq(r, zero))
+			}
+			if !e.blockUntil(st, free, "mutex", site) {
+				break
+			}
+			w = e.Load(st, wp, wT, site).(IntV).T
 		}
-		e.blockUntil(st, free, "mutex", site)
 		e.Store(st, wp, IntV{c.BV(1, 32)}, wT, site)
 	case "trylock":
 		free := c.Eq(w, zero)
@@ -338,7 +345,9 @@ func (e *Engine) mutexOp(st *State, p PtrV, fn *ssa.Function, op string, site st
 		e.fail(st, c.Eq(w, zero), "nopanic:unlock-of-unlocked-mutex", site)
 		e.Store(st, wp, IntV{zero}, wT, site)
 	case "rlock":
-		e.blockUntil(st, c.Eq(w, zero), "rwmutex", site)
+		for e.blockUntil(st, c.Eq(w, zero), "rwmutex", site) {
+			w = e.Load(st, wp, wT, site).(IntV).T
+		}
 		r := e.Load(st, rp, rT, site).(IntV).T
 		e.Store(st, rp, IntV{c.Add(r, c.BV(1, 32))}, rT, site)
 	case "runlock":
@@ -351,13 +360,41 @@ func (e *Engine) mutexOp(st *State, p PtrV, fn *ssa.Function, op string, site st
 
 // blockUntil: in sequential code a blocking operation whose condition is false can never proceed:
 // that is a deadlock of the (single-threaded) harness, reported as an obligation.
-func (e *Engine) blockUntil(st *State, ready smt.Term, what, site string) {
+// In coroutine mode (go_policy coro) a party that cannot proceed is parked / lets the others run,
+// and the result true tells the caller to evaluate its operation again on the state it got back.
+func (e *Engine) blockUntil(st *State, ready smt.Term, what, site string) bool {
 	if e.hookBusy {
 		// the hook's adversary stands for other goroutines running while the main one is stopped
 		// at the hook point: where it would have to wait for the stopped goroutine, this stopping
 		// point is not one after which the adversary can run to completion
 		e.assume(st, ready)
-		return
+		return false
+	}
+	if e.GoPolicy == "coro" && !st.G.IsFalse() && st.Th == nil {
+		c := e.C
+		if c.And(st.G, c.Not(ready)).IsFalse() {
+			if e.cur != nil {
+				e.cur.retrying = false
+			} else {
+				e.mainRetrying = false
+			}
+			return false
+		}
+		definite := c.And(st.G, ready).IsFalse()
+		if e.cur != nil {
+			if !definite {
+				panic(e.unsupported("blocking operation (" + what + ") whose readiness depends on symbolic data inside a goroutine at " + site + " (go_policy coro)"))
+			}
+			e.park(st, false, site)
+			return true
+		}
+		if definite && !e.mainRetrying && e.liveCoros() {
+			// the harness waits: the goroutines run until nobody can go on, then it tries again
+			e.runCoros(st)
+			e.mainRetrying = true
+			return true
+		}
+		e.mainRetrying = false
 	}
 	if e.hookSync && e.hookCnt != nil && st.Th == nil {
 		// a sync-point hook is armed and has not fired yet: the main computation would block
@@ -368,6 +405,7 @@ func (e *Engine) blockUntil(st *State, ready smt.Term, what, site string) {
 		}
 	}
 	e.fail(st, e.C.Not(ready), "noblock:"+what, site)
+	return false
 }
 
 func (e *Engine) timeModel(st *State, fn *ssa.Function, full string, args []Value, site string) (Value, bool) {
@@ -406,6 +444,7 @@ func (e *Engine) timeModel(st *State, fn *ssa.Function, full string, args []Valu
 		e.setClock(st, t)
 		return IntV{c.Sub(nanos(args[0]), t)}, true
 	case "time.Sleep":
+		e.sleepOp(st, site)
 		return nil, true
 	case "(*time.Ticker).Stop":
 		return nil, true
